@@ -7,4 +7,11 @@ case " $RUSTFLAGS " in
   *) RUSTFLAGS="${RUSTFLAGS:+$RUSTFLAGS }--cfg rngs_verif"; export RUSTFLAGS ;;
 esac
 mkdir -p "$V/out" "$V/evidence"
-cd "$V/harness" && cargo build --bin vcheck 2>&1 | tail -3
+(cd "$V/harness" && cargo build --bin vcheck 2>&1 | tail -2) || exit 1
+# C18 build configurations (quick tier corners) and the C19 probe, so that the first check run is warm
+(cd "$V/harness/vdigest" && cargo build --profile o0c --features serde --target-dir target-s1 2>&1 | tail -1 \
+  && cargo build --profile o3c --features serde --target-dir target-s1 2>&1 | tail -1 \
+  && cargo build --profile o3n --target-dir target-s0 2>&1 | tail -1 \
+  && cargo build --profile o0n --target-dir target-s0 2>&1 | tail -1) || exit 1
+(cd "$V/harness/sendsync_probe" && cargo check 2>&1 | tail -1) || exit 1
+echo "setup done"
